@@ -205,6 +205,12 @@ func finishEvidence() {
 	run.Set("B_list_commands", bst.listCmds)
 	run.Set("B_misc_commands", bst.miscCmds)
 	run.Set("B_commands_that_killed_the_connection", bst.crashes)
+	for k, v := range map[string]int64{"B search commands with a non-trivial result": bst.searchNonEmpty, "B fetches compared with the section table": bst.fetchCompared,
+		"B fetches of parts that do not exist": bst.fetchMissing, "B list commands": bst.listCmds} {
+		if v == 0 {
+			run.EngineError("non-vacuity counter %q is 0", k)
+		}
+	}
 	run.AddEvals(run.Trans + bst.searchCmds + bst.fetchCmds + bst.listCmds + bst.miscCmds)
 	run.NontrivialN(run.States + bst.searchNonEmpty + bst.fetchCompared)
 	run.Exhaustive = true
